@@ -35,6 +35,10 @@ def run(ctx):
                       'pipeline and re-raises, shutdown awaits the workers and then the producer')
     ck.rule('C13-D6', 'writers of Pipeline._state form stopped->running->stopping->stopped; the worker loop runs only while running')
     ck.rule('C13-D7', 'Application.stop reaches the current pipeline\'s stop(); the first SIGINT stops gracefully, the second forcefully')
+    ck.rule('C13-D8', 'nothing the pipeline can be parked on outlives a stop: (a) every writer of a non-running state also sets the '
+                      'un-pause event the supervisor loop may be waiting on; (b) that event is set only under a non-zero concurrency or '
+                      'together with a non-running state, so the supervisor loop cannot spin without suspending; (c) before the '
+                      'producer task is awaited at shutdown, a producer blocked behind a queued item is released (queue drained or task cancelled)')
 
     IQ = PIPE + ':ItemQueue'
     # ------------------------------------------------------------------ D1
@@ -313,6 +317,34 @@ def run(ctx):
     waitc = [c for c in U.calls(pw.node) if dotted(c.func) == 'asyncio.wait']
     okw = any(norm_text(U.kwarg(c, 'return_when') or ast.Constant(value=None)) == 'asyncio.FIRST_COMPLETED' and norm_text(c.args[0]) == 'self._worker_tasks' for c in waitc)
     ck.expect(okw, 'C13-D5', pw.qual, 'waits for the first finished worker of self._worker_tasks', 'worker wait changed', pw.loc())
+    # the supervisor watches the workers whenever one is outstanding and parks on the un-pause event only when none is:
+    # a worker that is still draining (pause = concurrency 0) would otherwise never be awaited and its failure never seen
+    ppm = U.parents(pw.node)
+
+    def _empty_norm(e):
+        class Z(ast.NodeTransformer):
+            def visit_Compare(self, n):
+                self.generic_visit(n)
+                if len(n.ops) == 1 and isinstance(n.left, ast.Call) and dotted(n.left.func) == 'len' and isinstance(n.comparators[0], ast.Constant):
+                    c, op, x = n.comparators[0].value, n.ops[0], n.left.args[0]
+                    if (isinstance(op, ast.Gt) and c == 0) or (isinstance(op, ast.GtE) and c == 1) or (isinstance(op, ast.NotEq) and c == 0):
+                        return x
+                    if (isinstance(op, ast.Eq) and c == 0) or (isinstance(op, ast.Lt) and c == 1) or (isinstance(op, ast.LtE) and c == 0):
+                        return ast.UnaryOp(op=ast.Not(), operand=x)
+                return n
+        import copy
+        return ast.fix_missing_locations(Z().visit(copy.deepcopy(e)))
+    okpark = True
+    waits = [c for c in U.calls(pw.node) if norm_text(c) == 'self._unpaused_event.wait()']
+    for c in waits:
+        g = U.guard_of(U.enclosing_stmt(c, ppm), ppm)
+        okpark = okpark and g is not None and same_bool(_empty_norm(g), 'not self._worker_tasks')
+    for c in waitc:
+        g = U.guard_of(U.enclosing_stmt(c, ppm), ppm)
+        okpark = okpark and g is not None and same_bool(_empty_norm(g), 'self._worker_tasks')
+    ck.expect(okpark and bool(waits), 'C13-D5', pw.qual, 'asyncio.wait(workers) iff a worker task is outstanding; un-pause wait iff none',
+              'the supervisor can park on the un-pause event while worker tasks are still running (e.g. draining after concurrency '
+              'was set to 0): those tasks are never awaited, a failure in them never surfaces and process() never returns', pw.loc())
     okspawn = any(isinstance(w, ast.While) and same_bool(w.test, 'len(self._worker_tasks) < self._concurrency')
                   and any('self._worker.process()' in norm_text(b) for b in w.body) and any(U.like(b, 'self._worker_tasks.add(L_t)') for b in w.body)
                   for w in walk_no_nested(pw.node))
@@ -428,3 +460,79 @@ def run(ctx):
     okrun = any(U.like(s, 'self._current_pipeline = L_p', b_) for s in walk_no_nested(arun.node) if isinstance(s, ast.Assign)) \
         and any(U.like(y, 'yield from L_p.process()', dict(b_)) for y in walk_no_nested(arun.node) if isinstance(y, ast.YieldFrom))
     ck.expect(okrun, 'C13-D7', arun.qual, 'current pipeline recorded before it is processed', 'Application.run wiring changed', arun.loc())
+
+    _d8_parking(ctx)
+
+
+def _d8_parking(ctx):
+    repo, ck = ctx.repo, ctx.check
+    pl = repo.cls(PIPE + ':Pipeline')
+    # the event(s) the supervisor waits on
+    events = set()
+    for m in pl.methods.values():
+        for c in U.calls(m.node):
+            if isinstance(c.func, ast.Attribute) and c.func.attr == 'wait' and U.is_self_attr(c.func.value):
+                events.add(c.func.value.attr)
+    init = pl.methods.get('__init__')
+    events = {e for e in events if init is not None and any(
+        isinstance(n, ast.Assign) and any(U.is_self_attr(t, e) for t in n.targets) and isinstance(n.value, ast.Call) and (dotted(n.value.func) or '').endswith('Event')
+        for n in walk_no_nested(init.node))}
+    if not events:
+        raise AnalysisError('Pipeline: no asyncio.Event the supervisor waits on')
+    ev = sorted(events)[0]
+    # (a) writers of a non-running state
+    n_writers = 0
+    for m in pl.methods.values():
+        for st in F.assigned_attrs(m.node, '_state'):
+            if not isinstance(st, ast.Assign) or norm_text(st.value) in ('PipelineState.running',):
+                continue
+            if m.name in ('__init__',):
+                continue
+            if norm_text(st.value) == 'PipelineState.stopped':
+                continue        # written by the supervisor itself after its loop
+            n_writers += 1
+            cfg = ctx.cfg(m)
+            nodes = [n for n in cfg.stmt_nodes() if n.stmt is st]
+            okset = bool(nodes)
+            for n in nodes:
+                p = cfg.find_path(n, lambda x: x is cfg.exit, edge_ok=F.normal, stop=lambda x: any(
+                    isinstance(c.func, ast.Attribute) and c.func.attr == 'set' and U.is_self_attr(c.func.value, ev) for c in F.node_calls(x)))
+                okset = okset and p is None
+            ck.expect(okset, 'C13-D8', m.qual, '%s followed by self.%s.set() on every path' % (norm_text(st), ev),
+                      'a stop (or a producer failure) while the pipeline is paused and drained leaves the supervisor parked on %s.wait(): '
+                      'process() never returns' % ev, m.loc(st))
+    if n_writers == 0:
+        ck.bad('C13-D8', pl.qual, 'a method stores PipelineState.stopping', 'no stop transition found', pl.module.path)
+    # (b) every set() of the event
+    for m in pl.methods.values():
+        pm = U.parents(m.node)
+        for c in U.calls(m.node):
+            if isinstance(c.func, ast.Attribute) and c.func.attr == 'set' and U.is_self_attr(c.func.value, ev):
+                g = U.guard_of(U.enclosing_stmt(c, pm), pm)
+                under_conc = g is not None and any(
+                    same_bool(part, 'self._concurrency') or same_bool(part, 'self._concurrency > 0')
+                    for part in (g.values if isinstance(g, ast.BoolOp) and isinstance(g.op, ast.And) else [g]))
+                with_stop = any(isinstance(st, ast.Assign) and norm_text(st.value) != 'PipelineState.running' and st.lineno < c.lineno
+                                for st in F.assigned_attrs(m.node, '_state'))
+                ck.expect(under_conc or with_stop, 'C13-D8', m.qual, 'self.%s.set() only under a non-zero concurrency or with a stop' % ev,
+                          'the un-pause event is set although the concurrency may be 0: with no worker to wait for, the supervisor loop '
+                          'calls wait() on a set event over and over without ever suspending, and the event loop is blocked', m.loc(c))
+    # (c) the producer at shutdown
+    sd = [m for m in pl.methods.values() if any(norm_text(y) == 'yield from self._producer_task' for y in walk_no_nested(m.node) if isinstance(y, ast.YieldFrom))]
+    if len(sd) != 1:
+        raise AnalysisError('Pipeline: expected one place that awaits the producer task')
+    m = sd[0]
+    cfg = ctx.cfg(m)
+    aw = [n for n in cfg.stmt_nodes() if any(isinstance(y, ast.YieldFrom) and norm_text(y) == 'yield from self._producer_task' for y in walk_no_nested(n.stmt))]
+
+    def releases(n):
+        for c in F.node_calls(n):
+            t = norm_text(c)
+            if t.startswith('self._producer_task.cancel(') or (U.is_self_attr(getattr(c.func, 'value', None), '_item_queue')
+                                                                 and U.attr_name(c) in ('clear', 'drain', 'discard_items', 'release_producer', 'close')):
+                return True
+        return False
+    p = cfg.find_path(cfg.entry, lambda x: x in aw, edge_ok=F.normal, stop=releases)
+    ck.expect(p is None, 'C13-D8', m.qual, 'a blocked producer is released before `yield from self._producer_task`',
+              'stop() while the producer waits in put_item() behind a queued item: the workers leave through their poison pills, the '
+              'queued item is never taken, put_item never returns and process() hangs awaiting the producer', m.loc(aw[0].stmt) if aw else m.loc())
